@@ -36,6 +36,12 @@ def run(ctx):
     ctx.do(rule_wiring)
     ctx.do(rule_determinism)
     ctx.do(rule_renamed_keys_collide)
+    ctx.do(rule_contributing_lists_never_written)
+    # "equal ids across processes": a contributing TIMESTAMP is hashed as its UTC text; reading a timezone-naive value in the
+    # zone of the process (astimezone on a naive datetime) makes the id depend on TZ -- the C15 clauses on how a value becomes UTC
+    from . import C15 as _C15
+    ctx.do(_C15.rule_value_object, rule_id="C06.timestamps-process-independent")
+    ctx.do(_C15.rule_no_relabel, rule_id="C06.timestamps-process-independent")
     # the id is computed by the base constructor: every contributing property must be in place by then
     from .C01 import rule_inner_written_by_constructor
     ctx.do(rule_inner_written_by_constructor, rule_id="C06.wiring")
@@ -420,6 +426,23 @@ def rule_renamed_keys_collide(ctx):
                           and norm(t.left) == norm(k) and norm(t.comparators[0]) == d and t.lineno <= st.lineno]
                 guards += [c for c in ast.walk(lp) if isinstance(c, ast.Call) and isinstance(c.func, ast.Attribute) and c.func.attr in ("get", "setdefault")
                            and norm(c.func.value) == d and c.args and norm(c.args[0]) == norm(k) and c.lineno <= st.lineno]
+                # ... and where the test lets an entry through because the old and the new VALUE "agree", they agree exactly: a
+                # coarser comparison (case-folded, stripped) than the value that is kept makes the survivor depend on order again
+                coarse = []
+                entry = "%s[%s]" % (d, norm(k))
+                for iff in [x_ for x_ in ast.walk(lp) if isinstance(x_, ast.If) and x_.lineno <= st.lineno]:
+                    for cmp_ in [c_ for c_ in ast.walk(iff.test) if isinstance(c_, ast.Compare) and len(c_.ops) == 1
+                                 and isinstance(c_.ops[0], (ast.Eq, ast.NotEq))]:
+                        sides = [norm(cmp_.left), norm(cmp_.comparators[0])]
+                        if any(entry in s_ for s_ in sides) and not (entry in sides and norm(st.value) in sides):
+                            coarse.append(cmp_)
+                if guards and coarse:
+                    run.violation(R, key(rel, fi.qualname, "renamed-key-store:%s:values-agree-exactly" % d),
+                                  "two entries that map to one key are let through when their values agree under a COARSER comparison "
+                                  "than the value that is stored (%s, stored: %s): the entry that comes last in the order of the input "
+                                  "dictionary survives, so equal dictionaries give different values -- and different ids" %
+                                  (short(coarse[0]), norm(st.value)), file=rel, line=coarse[0].lineno, function=fi.qualname,
+                                  expected="%s != %s (or store the normalised value)" % (entry, norm(st.value)), found=short(coarse[0]))
                 run.check(bool(guards), R, key(rel, fi.qualname, "renamed-key-store:%s" % d),
                           "entries of the given dictionary are stored under a renamed key without a collision test: two names that map to "
                           "one key (two spellings of one hash algorithm: {'md5': A, 'MD5': B}) collapse to whichever comes last in the "
@@ -427,3 +450,68 @@ def rule_renamed_keys_collide(ctx):
                           "values, and different ids where the property is identifier-contributing", file=rel, line=st.lineno,
                           function=fi.qualname, expected="if %s in %s: <refuse / resolve independently of order>" % (norm(k), d), found=short(st))
     run.floor(R, 1)
+
+
+def rule_contributing_lists_never_written(ctx):
+    """Who may write: the `_id_contributing_properties` lists are CLASS attributes read by every construction.  No function of
+    the package mutates one in place -- not directly and not through a local alias (`locked = cls._id_contributing_properties;
+    locked += [...]` appends to the class's list: from then on every object of the type hashes other properties).  Def-use: the
+    receiver of every in-place operation is followed back through its reaching definitions."""
+    from ..forward import flow_of
+    from .hidden_state import MUTATORS
+    run = ctx.run
+    prog = ctx.prog
+    R = "C06.table"
+    ATTR = "_id_contributing_properties"
+    n = 0
+    readers = 0
+    for fi in sorted(prog.functions.values(), key=lambda f: f.id):
+        if fi.module.relpath.startswith("stix2/test") or not fi.module.name.startswith("stix2"):
+            continue
+        if not any(isinstance(x, ast.Attribute) and x.attr == ATTR for x in body_walk(fi.node)):
+            continue
+        readers += 1
+        # names that may hold the class's own list: bound to the attribute, or to a name that is (plain aliasing only; a copy
+        # -- list(x), x + y, sorted(x), a comprehension -- is a new object); flow-insensitive, to a fixed point
+        def holds(v, al):
+            if isinstance(v, ast.Attribute) and v.attr == ATTR:
+                return True
+            if isinstance(v, ast.Name):
+                return v.id in al
+            if isinstance(v, ast.IfExp):
+                return holds(v.body, al) or holds(v.orelse, al)
+            if isinstance(v, ast.BoolOp):
+                return any(holds(o_, al) for o_ in v.values)
+            return False
+        aliases = set()
+        while True:
+            new_ = {t.id for a_ in body_walk(fi.node) if isinstance(a_, ast.Assign) and holds(a_.value, aliases)
+                    for t in a_.targets if isinstance(t, ast.Name)}
+            if new_ <= aliases:
+                break
+            aliases |= new_
+        for x in body_walk(fi.node):
+            recv = None
+            if isinstance(x, ast.AugAssign):
+                recv = x.target
+            elif isinstance(x, ast.Call) and isinstance(x.func, ast.Attribute) and x.func.attr in MUTATORS + ("sort", "reverse"):
+                recv = x.func.value
+            elif isinstance(x, (ast.Assign, ast.Delete)):
+                for t in x.targets:
+                    if isinstance(t, ast.Subscript):
+                        recv = t.value
+            if recv is None:
+                continue
+            while isinstance(recv, ast.Subscript):
+                recv = recv.value
+            hit = holds(recv, aliases)
+            if hit:
+                n += 1
+                run.violation(R, key(fi.module.relpath, fi.qualname, "contributing-list-written:%s" % short(x, 50)),
+                              "a list of identifier-contributing properties -- a class attribute -- is changed in place (through an "
+                              "alias): after this call every object of the type computes its id from other properties, so ids depend "
+                              "on what ran before", file=fi.module.relpath, line=x.lineno, function=fi.qualname,
+                              expected="read-only use (copy before extending: list(...) + ..., itertools.chain(...))", found=short(x))
+    if readers < 3:
+        raise AnalysisError("fewer than 3 functions reading %s found (%d)" % (ATTR, readers))
+    run.ok(R, key("stix2", "<package>", "contributing-lists-read-only"), "%d reading functions, no in-place operation" % readers) if not n else None
